@@ -604,6 +604,208 @@ theorem gen_pool_swap (a b : PTable) : HashLink.PoolMap.swap a b = some (PTable.
   unfold HashLink.PoolMap.swap PTable.swap
   cases hb : b.endPrev <;> cases ha : a.endPrev <;> rfl
 
+/-! ### members that walk the list of `other` (HashMap.hpp, HashSet.hpp) -/
+
+theorem gen_map_assign_loop (h : Nat → Nat) (o : PTable) (fuel : Nat) : ∀ (t : PTable) (i : Nxt),
+    HashLink.HashMap.assign_loop1 h fuel t o i (.stl o.self) = PTable.appendLoop Kind.map h o.self o.items fuel i t := by
+  induction fuel with
+  | zero =>
+    intro t i
+    cases i with
+    | stl s =>
+      unfold HashLink.HashMap.assign_loop1 PTable.appendLoop
+      by_cases hs : s = o.self <;> simp [hs]
+    | item a => simp [HashLink.HashMap.assign_loop1, PTable.appendLoop]
+  | succ f ih =>
+    intro t i
+    cases i with
+    | stl s =>
+      unfold HashLink.HashMap.assign_loop1 PTable.appendLoop
+      by_cases hs : s = o.self <;> simp [hs]
+    | item a =>
+      unfold HashLink.HashMap.assign_loop1 PTable.appendLoop
+      simp only [reduceCtorEq, if_false]
+      rw [gen_map_insert h t _ _ _ (by simp)]
+      cases t.insert Kind.map h (.stl t.self) (o.items a).key (o.items a).value with
+      | none => rfl
+      | some r => simp only [Option.map_some]; exact ih _ _
+
+/-- The translated `HashMap::operator=(other)` for ANOTHER object (`this == &other` is false: the guard line is the model's
+    `assignSelf`) – `clear()`, then `append(i->key, i->value)` along `other`'s list up to `other`'s sentinel, the reads from
+    `other`'s items – is the model's `assignFrom`, for EVERY two tables. -/
+theorem gen_map_assign (h : Nat → Nat) (t o : PTable) : HashLink.HashMap.assign h t o = t.assignFrom Kind.map h o := by
+  unfold HashLink.HashMap.assign PTable.assignFrom PTable.appendAll
+  rw [gen_map_clear]
+  cases t.clear with
+  | none => rfl
+  | some t' => exact gen_map_assign_loop h o _ _ _
+
+theorem gen_map_equal_loop (h : Nat → Nat) (t o : PTable) (fuel : Nat) : ∀ (a b : Nxt),
+    HashLink.HashMap.equal_loop1 h fuel t o a b = (PTable.eqLoop Kind.map t.self t.items o.items fuel a b).map (fun r => (t, r)) := by
+  induction fuel with
+  | zero =>
+    intro a b
+    cases a with
+    | stl s =>
+      unfold HashLink.HashMap.equal_loop1 PTable.eqLoop
+      by_cases hs : s = t.self <;> simp [hs]
+    | item x => simp [HashLink.HashMap.equal_loop1, PTable.eqLoop]
+  | succ f ih =>
+    intro a b
+    cases a with
+    | stl s =>
+      unfold HashLink.HashMap.equal_loop1 PTable.eqLoop
+      by_cases hs : s = t.self <;> simp [hs]
+    | item x =>
+      cases b with
+      | stl s => simp [HashLink.HashMap.equal_loop1, PTable.eqLoop]
+      | item y =>
+        unfold HashLink.HashMap.equal_loop1 PTable.eqLoop
+        simp only [reduceCtorEq, if_false]
+        by_cases hk : (t.items x).key = (o.items y).key
+        · by_cases hv : (t.items x).value = (o.items y).value
+          · simp only [hk, hv, if_true, ne_eq, not_true_eq_false, and_false, or_false, if_false]
+            exact ih _ _
+          · simp [hk, hv]
+        · simp [hk]
+
+/-- The translated `HashMap::operator==` (sizes, then keys and values pairwise along both lists until the own sentinel) is
+    the model's `equal`, for EVERY two tables (also a table with itself): a fault where `b->key` would read the other sentinel. -/
+theorem gen_map_equal (h : Nat → Nat) (t o : PTable) :
+    HashLink.HashMap.equal h t o = (PTable.equal Kind.map t o).map (fun r => (t, r)) := by
+  unfold HashLink.HashMap.equal PTable.equal
+  by_cases hs : t.size = o.size
+  · simp only [hs, if_true, ne_eq, not_true_eq_false, if_false]
+    rw [← hs]; exact gen_map_equal_loop h t o _ _ _
+  · simp [hs]
+theorem gen_set_assign_loop (h : Nat → Nat) (o : PTable) (fuel : Nat) : ∀ (t : PTable) (i : Nxt),
+    HashLink.HashSet.assign_loop1 h fuel t o i (.stl o.self) = PTable.appendLoop Kind.set h o.self o.items fuel i t := by
+  induction fuel with
+  | zero =>
+    intro t i
+    cases i with
+    | stl s =>
+      unfold HashLink.HashSet.assign_loop1 PTable.appendLoop
+      by_cases hs : s = o.self <;> simp [hs]
+    | item a => simp [HashLink.HashSet.assign_loop1, PTable.appendLoop]
+  | succ f ih =>
+    intro t i
+    cases i with
+    | stl s =>
+      unfold HashLink.HashSet.assign_loop1 PTable.appendLoop
+      by_cases hs : s = o.self <;> simp [hs]
+    | item a =>
+      unfold HashLink.HashSet.assign_loop1 PTable.appendLoop
+      simp only [reduceCtorEq, if_false]
+      rw [gen_set_insert h t _ _ (o.items a).value (by simp)]
+      cases t.insert Kind.set h (.stl t.self) (o.items a).key (o.items a).value with
+      | none => rfl
+      | some r => simp only [Option.map_some]; exact ih _ _
+
+/-- the same for `HashSet::operator=` -/
+theorem gen_set_assign (h : Nat → Nat) (t o : PTable) : HashLink.HashSet.assign h t o = t.assignFrom Kind.set h o := by
+  unfold HashLink.HashSet.assign PTable.assignFrom PTable.appendAll
+  rw [gen_set_clear]
+  cases t.clear with
+  | none => rfl
+  | some t' => exact gen_set_assign_loop h o _ _ _
+
+theorem gen_set_equal_loop (h : Nat → Nat) (t o : PTable) (fuel : Nat) : ∀ (a b : Nxt),
+    HashLink.HashSet.equal_loop1 h fuel t o a b = (PTable.eqLoop Kind.set t.self t.items o.items fuel a b).map (fun r => (t, r)) := by
+  induction fuel with
+  | zero =>
+    intro a b
+    cases a with
+    | stl s =>
+      unfold HashLink.HashSet.equal_loop1 PTable.eqLoop
+      by_cases hs : s = t.self <;> simp [hs]
+    | item x => simp [HashLink.HashSet.equal_loop1, PTable.eqLoop]
+  | succ f ih =>
+    intro a b
+    cases a with
+    | stl s =>
+      unfold HashLink.HashSet.equal_loop1 PTable.eqLoop
+      by_cases hs : s = t.self <;> simp [hs]
+    | item x =>
+      cases b with
+      | stl s => simp [HashLink.HashSet.equal_loop1, PTable.eqLoop]
+      | item y =>
+        unfold HashLink.HashSet.equal_loop1 PTable.eqLoop
+        simp only [reduceCtorEq, if_false]
+        by_cases hk : (t.items x).key = (o.items y).key
+        · simp only [hk, if_true, ne_eq, not_true_eq_false, reduceCtorEq, false_and, or_false, if_false]
+          exact ih _ _
+        · simp [hk]
+
+/-- `HashSet::operator==` compares keys only -/
+theorem gen_set_equal (h : Nat → Nat) (t o : PTable) :
+    HashLink.HashSet.equal h t o = (PTable.equal Kind.set t o).map (fun r => (t, r)) := by
+  unfold HashLink.HashSet.equal PTable.equal
+  by_cases hs : t.size = o.size
+  · simp only [hs, if_true, ne_eq, not_true_eq_false, if_false]
+    rw [← hs]; exact gen_set_equal_loop h t o _ _ _
+  · simp [hs]
+theorem gen_set_appendAll_loop (h : Nat → Nat) (o : PTable) (fuel : Nat) : ∀ (t : PTable) (i : Nxt),
+    HashLink.HashSet.appendAll_loop1 h fuel t o i (.stl o.self) = PTable.appendLoop Kind.set h o.self o.items fuel i t := by
+  induction fuel with
+  | zero =>
+    intro t i
+    cases i with
+    | stl s =>
+      unfold HashLink.HashSet.appendAll_loop1 PTable.appendLoop
+      by_cases hs : s = o.self <;> simp [hs]
+    | item a => simp [HashLink.HashSet.appendAll_loop1, PTable.appendLoop]
+  | succ f ih =>
+    intro t i
+    cases i with
+    | stl s =>
+      unfold HashLink.HashSet.appendAll_loop1 PTable.appendLoop
+      by_cases hs : s = o.self <;> simp [hs]
+    | item a =>
+      unfold HashLink.HashSet.appendAll_loop1 PTable.appendLoop
+      simp only [reduceCtorEq, if_false]
+      rw [gen_set_insert h t _ _ (o.items a).value (by simp)]
+      cases t.insert Kind.set h (.stl t.self) (o.items a).key (o.items a).value with
+      | none => rfl
+      | some r => simp only [Option.map_some]; exact ih _ _
+
+/-- The translated `HashSet::append(const HashSet& other)` (another object) is the model's `appendAll`, for EVERY two tables. -/
+theorem gen_set_appendAll (h : Nat → Nat) (t o : PTable) : HashLink.HashSet.appendAll h t o = PTable.appendAll Kind.set h t o := by
+  unfold HashLink.HashSet.appendAll PTable.appendAll
+  exact gen_set_appendAll_loop h o _ _ _
+
+theorem gen_set_removeAll_loop (h : Nat → Nat) (o : PTable) (fuel : Nat) : ∀ (pt : PTable) (t : Table) (i : Nxt), Rel pt t → t.Inv h →
+    HashLink.HashSet.removeAll_loop1 h fuel pt o i (.stl o.self) = PTable.removeLoop h o.self o.items fuel i pt := by
+  induction fuel with
+  | zero =>
+    intro pt t i hr hi
+    cases i with
+    | stl s =>
+      unfold HashLink.HashSet.removeAll_loop1 PTable.removeLoop
+      by_cases hs : s = o.self <;> simp [hs]
+    | item a => simp [HashLink.HashSet.removeAll_loop1, PTable.removeLoop]
+  | succ f ih =>
+    intro pt t i hr hi
+    cases i with
+    | stl s =>
+      unfold HashLink.HashSet.removeAll_loop1 PTable.removeLoop
+      by_cases hs : s = o.self <;> simp [hs]
+    | item a =>
+      unfold HashLink.HashSet.removeAll_loop1 PTable.removeLoop
+      simp only [reduceCtorEq, if_false]
+      rw [gen_set_removeKey hr hi]
+      obtain ⟨pt', e1, hr', _⟩ := hr.removeKey hi (o.items a).key
+      rw [e1]
+      exact ih pt' _ _ hr' (hi.removeKey (o.items a).key).1
+
+/-- The translated `HashSet::remove(const HashSet& other)` (another object) is the model's `removeAll` on every table that
+    represents a model state (each `remove(i->key)` is the translated `remove(key)`, which keeps the representation). -/
+theorem gen_set_removeAll (h : Nat → Nat) {pt : PTable} {t : Table} (hr : Rel pt t) (hi : t.Inv h) (o : PTable) :
+    HashLink.HashSet.removeAll h pt o = PTable.removeAll h pt o := by
+  unfold HashLink.HashSet.removeAll PTable.removeAll
+  exact gen_set_removeAll_loop h o _ pt t _ hr hi
+
+
 /-- the hypotheses of the `…_rel` theorems are met by a non-empty represented table, and the translated `remove(iterator)`
     does not fault on it -/
 example : ∃ (pt : PTable) (t : Table), Rel pt t ∧ t.Inv (fun _ => 7) ∧ 0 ∈ t.order ∧
